@@ -32,7 +32,8 @@ with open(os.path.join(B, "README.md"), "w") as f:
             "Each directory holds `patch.diff`, `demo.py` (a property test that passes with and without the patch) and `meta.json`.\n"
             "`Cxx-n` = first campaign, `Cxx-b2-n` = second (more than cosmetic: equivalent algorithms, helpers extracted/merged, dispatch tables,\n"
             "pointer stepping in C, fast paths), `Cxx-b3-n` = third (performance / robustness / API-hygiene rewrites), `Cxx-b4-n` = fourth (small: 2-15\n"
-            "lines in the statements the rules watch), `Cxx-b5-n` = fifth (medium: 15-35 lines in one file).\n"
+            "lines in the statements the rules watch), `Cxx-b5-n`, `Cxx-b6-n` = fifth and sixth (medium: 15-35 lines in one file), `Cxx-b7-n` = seventh (small, written after the last\n"
+            "strengthening round); `retired/` = early refactors that no longer apply after /repo fix 3e2b666.\n"
             "`when first run` = checks that did not exit 0 when the change was first confirmed.  `now` = `tools/benign_matrix.py --kept` with the default\n"
             "settings (frozen in `expect.json`, replayed by the thorough tier: a check that exits 1 on one of these fails its self-test);\n"
             "`rules alone` = the same with `VCHECK_CHURN=0` (`raw.json`).  no verdict = exit 2 (ANALYSIS-ERROR), never a VIOLATION line.\n\n"
